@@ -411,15 +411,15 @@ Proof.
   - cbn [span_digits]. rewrite Hc, IH. reflexivity.
 Qed.
 
-(* a well-formed single range "bytes a-b/t" (t a number, or "*" for the RFC reading):
-   the start is a, read as an int64; -1 when it does not fit *)
-Lemma range_start_wellformed star (a b t : list ascii) rest :
+(* a well-formed single range "bytes a-b/t" (t a number or "*"): the start is a,
+   read as an int64; -1 when it does not fit *)
+Lemma range_start_wellformed (a b t : list ascii) rest :
   all_digits a -> a <> [] -> all_digits b -> b <> [] ->
-  (match t with c :: _ => is_digit c = true \/ (star = true /\ c = "*"%char) | [] => False end) ->
-  range_start_gen star 206 false (list_ascii_of_string "bytes " ++ a ++ "-"%char :: b ++ "/"%char :: t ++ rest)
+  (match t with c :: _ => is_digit c = true \/ c = "*"%char | [] => False end) ->
+  range_start 206 false (list_ascii_of_string "bytes " ++ a ++ "-"%char :: b ++ "/"%char :: t ++ rest)
   = match parse_int64 a with Some v => v | None => -1 end.
 Proof.
-  intros Ha Na Hb Nb Ht. unfold range_start_gen. cbn [Z.eqb negb Pos.eqb].
+  intros Ha Na Hb Nb Ht. unfold range_start. cbn [Z.eqb negb Pos.eqb].
   change (list_ascii_of_string "bytes ") with ["b"; "y"; "t"; "e"; "s"; " "]%char.
   cbn [app find_cr starts_with Ascii.eqb Bool.eqb andb skipn].
   unfold match_cr_at.
@@ -428,12 +428,12 @@ Proof.
   rewrite (span_digits_app b ("/"%char :: t ++ rest) Hb eq_refl).
   destruct b as [|b0 b']; [congruence|].
   destruct t as [|c t']; [destruct Ht|]. cbn [app].
-  assert (is_digit c || (star && Ascii.eqb c "*"%char) = true) as ->; [|reflexivity].
-  destruct Ht as [Ht|[-> ->]]; [rewrite Ht; reflexivity | apply orb_true_r].
+  assert (is_digit c || Ascii.eqb c "*"%char = true) as ->; [|reflexivity].
+  destruct Ht as [Ht| ->]; [rewrite Ht; reflexivity | apply orb_true_r].
 Qed.
 
-Lemma range_start_not_partial star status mp cr : status <> 206 -> range_start_gen star status mp cr = 0.
-Proof. intros H. unfold range_start_gen. apply Z.eqb_neq in H. rewrite H. reflexivity. Qed.
+Lemma range_start_not_partial status mp cr : status <> 206 -> range_start status mp cr = 0.
+Proof. intros H. unfold range_start. apply Z.eqb_neq in H. rewrite H. reflexivity. Qed.
 
-Lemma range_start_multipart star cr : range_start_gen star 206 true cr = -1.
+Lemma range_start_multipart cr : range_start 206 true cr = -1.
 Proof. reflexivity. Qed.
